@@ -290,3 +290,40 @@ func (x *Exec) synth(op *Op) {
 	}
 	x.emit("synth", map[string]any{"msgs": all, "next": next, "segs": op.Segs, "var": op.Var})
 }
+
+// backupClosed (C20): klevdb.Backup of a directory that is not open (index files may be missing).
+func (x *Exec) backupClosed(op *Op) {
+	if op.Arg == 1 || x.bdir == "" {
+		x.bgen++
+		x.bdir = fmt.Sprintf("%s-backup%d", x.dir, x.bgen)
+		os.RemoveAll(x.bdir)
+	}
+	err := klevdb.Backup(x.dir, x.bdir)
+	x.emit("backup", map[string]any{"err": errClass(err), "errs": errStr(err), "pkg": true, "fresh": op.Arg == 1, "closed": true})
+	if err != nil {
+		return
+	}
+	chk := !x.h.Times || x.h.Mono
+	var cerr error
+	if chk {
+		cerr = klevdb.Check(x.bdir, klevdb.Options{KeyIndex: x.h.Keys, TimeIndex: x.h.Times})
+	}
+	tmp := x.bdir + "-open"
+	os.RemoveAll(tmp)
+	defer os.RemoveAll(tmp)
+	if e := copyDir(x.bdir, tmp); e != nil {
+		x.emit("backupobs", map[string]any{"err": "Other", "errs": e.Error(), "check": errClass(cerr), "msgs": []MM{}, "next": -1})
+		return
+	}
+	o := x.cur
+	o.Check, o.Recover, o.Eager, o.RO = chk, false, false, false
+	l2, oerr := klevdb.Open(tmp, x.options(o))
+	if oerr != nil {
+		x.emit("backupobs", map[string]any{"err": errClass(oerr), "errs": errStr(oerr), "check": errClass(cerr), "msgs": []MM{}, "next": -1})
+		return
+	}
+	all, _, serr := scanLog(l2, 32)
+	next, _ := l2.NextOffset()
+	x.emit("backupobs", map[string]any{"err": serr, "errs": "", "check": errClass(cerr), "checks": errStr(cerr), "msgs": x.conv(all), "next": next})
+	l2.Close()
+}
